@@ -240,7 +240,10 @@ def r34(ctx, lib):
                 # (one clean-up site may serve both failures - `copy().and_then(remove).map_err(clean up)`: what counts is that it is
                 # reached when the removal failed and never when both the copy and the removal succeeded)
                 all_ok = reachable_state(mc, 0, dict(list(ct.items()) + list(rt.items())), 'ok') if (ct and rt) else set()
-                cleans = [r for r in tgt_rm if r.bb in rm_err and (r.bb not in rm_ok or r.bb not in all_ok)]
+                after_rm_err = set()
+                for t_ in rt.values():
+                    after_rm_err |= reachable_state(mc, t_['err'], rt, 'err')       # what can follow the FAILURE of remove(source)
+                cleans = [r for r in tgt_rm if r.bb in after_rm_err and (r.bb not in rm_ok or r.bb not in all_ok)]
                 rvs = return_variants_state(mc, src_rm[0].bb, rt, 'err') if rt else set()
                 ctx.check(bool(cleans) and 'Ok' not in rvs, 'C05.R3', mc.path + '|failed-remove-cleans-target', src_rm[0].where(), 'when remove(source) fails the fresh copy is removed again and the error is returned',
                           'when remove(source) fails (directory not writable, append-only, sticky) the error is returned but the complete copy made a moment ago stays under the target directory: the command '
